@@ -700,7 +700,98 @@ def evaluate(spec):
         cands = [s for s in res.symbols if s.name == nm or s.name == nm + "_7"]
         if len(cands) != 1 or not isinstance(cands[0].referent, gtirb.ProxyBlock) or cands[0].referent not in res.proxies:
             out.fail("C12.labels", "undefined-symbol-handling", f"{nm}: {len(cands)} symbols")
+    if not out.failures:
+        # (a result that refers to symbols of the target module cannot become an IR of its own: documented ValueError)
+        uses_mod = any(getattr(it, "how", None) == "mod" or any(getattr(op, "how", None) == "mod" for op in getattr(it, "more", ()))
+                       for items in sections.values() for it in items)
+        if uses_mod:
+            out.classes.append("create_ir-not-applicable(module-symbols)")
+        else:
+            out.classes.append("create_ir-compared")
+            _check_create_ir(out, res)
     return out
+
+
+def _check_create_ir(out, res):
+    """Result.create_ir() is the other form in which the assembler hands over its output: the IR must hold exactly
+    what the (already judged) Result holds, and serialise.  (Runs last: create_ir() adopts the Result's blocks.)"""
+    import io
+
+    import gtirb
+
+    want_secs = {}
+    for sname, s_ in res.sections.items():
+        want_secs[sname] = {
+            "data": bytes(s_.data), "flags": set(s_.flags),
+            "blocks": sorted((type(b).__name__, b.offset, b.size) for b in s_.blocks),
+            "exprs": {off: id(e) for off, e in s_.symbolic_expressions.items()},
+            "sizes": dict(s_.symbolic_expression_sizes),
+            "align": {id(b): a for b, a in s_.alignment.items()},
+            "types": {id(b): t for b, t in s_.block_types.items()},
+        }
+    want_cfi = {(id(k.element_id), k.displacement): [(n_, list(a_), id(s_)) for n_, a_, s_ in v]
+                for k, v in res.create_cfi_directives().items()}
+    want_edges = sorted((id(e.source), id(e.target), str(e.label)) for e in res.cfg)
+    want_syms = {id(s_) for s_ in res.symbols}
+    want_proxies = {id(p_) for p_ in res.proxies}
+    try:
+        ir = res.create_ir()
+    except Exception as e:
+        out.fail("C12.create-ir", "raises:" + exc_kind(e), repr(e)[:300])
+        return
+    mods = list(ir.modules)
+    if len(mods) != 1:
+        out.fail("C12.create-ir", "module-count", str(len(mods)))
+        return
+    m = mods[0]
+    got_secs = {sec.name: sec for sec in m.sections}
+    for sname, w in want_secs.items():
+        sec = got_secs.get(sname)
+        if sec is None or len(sec.byte_intervals) != 1:
+            out.fail("C12.create-ir", "section-missing-or-split", sname)
+            continue
+        bi = next(iter(sec.byte_intervals))
+        if bytes(bi.contents) != w["data"] or bi.size != len(w["data"]):
+            out.fail("C12.create-ir", "bytes-differ", sname)
+        if set(sec.flags) != w["flags"]:
+            out.fail("C12.create-ir", "flags-differ", f"{sname}: {sorted(f.name for f in sec.flags)}")
+        if sorted((type(b).__name__, b.offset, b.size) for b in bi.blocks) != w["blocks"]:
+            out.fail("C12.create-ir", "blocks-differ", sname)
+        if {off: id(e) for off, e in bi.symbolic_expressions.items()} != w["exprs"]:
+            out.fail("C12.create-ir", "expressions-differ", sname)
+        sizes = m.aux_data.get("symbolicExpressionSizes")
+        got_sizes = {k.displacement: v for k, v in (sizes.data.items() if sizes else []) if k.element_id is bi}
+        if got_sizes != w["sizes"]:
+            out.fail("C12.create-ir", "expression-sizes-differ", f"{sname}: {got_sizes} expected {w['sizes']}")
+        al = m.aux_data.get("alignment")
+        got_al = {id(b): a for b, a in (al.data.items() if al else []) if isinstance(b, gtirb.ByteBlock) and b.byte_interval is bi}
+        if got_al != w["align"]:
+            out.fail("C12.create-ir", "alignment-table-differs", sname)
+        enc = m.aux_data.get("encodings")
+        got_t = {id(b): t for b, t in (enc.data.items() if enc else []) if isinstance(b, gtirb.ByteBlock) and b.byte_interval is bi}
+        if set(got_t) != set(w["types"]):
+            out.fail("C12.create-ir", "block-type-table-differs", sname)
+    extra = set(got_secs) - set(want_secs) - {".dynamic"}
+    if extra:
+        out.fail("C12.create-ir", "unexpected-sections", str(sorted(extra)))
+    if {id(s_) for s_ in m.symbols} != want_syms:
+        out.fail("C12.create-ir", "symbols-differ", "")
+    if {id(p_) for p_ in m.proxies} != want_proxies:
+        out.fail("C12.create-ir", "proxies-differ", "")
+    if sorted((id(e.source), id(e.target), str(e.label)) for e in ir.cfg) != want_edges:
+        out.fail("C12.create-ir", "cfg-differs", "")
+    cfi = m.aux_data.get("cfiDirectives")
+    got_cfi = {(id(k.element_id), k.displacement): [(n_, list(a_), id(s_)) for n_, a_, s_ in v]
+               for k, v in (cfi.data.items() if cfi else [])}
+    if got_cfi != want_cfi:
+        out.fail("C12.create-ir", "cfi-table-differs", "")
+    try:
+        buf = io.BytesIO()
+        ir.save_protobuf_file(buf)
+        buf.seek(0)
+        gtirb.IR.load_protobuf_file(buf)
+    except Exception as e:
+        out.fail("C12.create-ir", "does-not-serialise:" + type(e).__name__, repr(e)[:300])
 
 
 def render(spec):
